@@ -642,5 +642,6 @@ def sym_chars(ctx, name, n, exclude=''):
         ctx.add(z3.Or(t == 9, z3.And(t >= 32, t <= 126)))
         for ch in exclude:
             ctx.add(t != ord(ch))
+        ctx.declare_domain(t, [k for k in [9] + list(range(32, 127)) if chr(k) not in exclude])
         items.append(t)
     return items
